@@ -42,6 +42,8 @@ ENTRIES = [
  # recorded cases (regress/), so these three run with the recorded cases enabled
  ("revert-8fa4474-literal-origins",      ("revert", "8fa4474"), ["C02"], [], {"pinned": True}),
  ("revert-db77fc3-empty-list-vs-default",("revert", "db77fc3"), ["C02"], [], {"pinned": True}),
+ ("revert-82c8a10-choice-text",          ("revert", "82c8a10"), ["C04"], [], {"pinned": True}),
+ ("revert-db4c970-negative-zero",        ("revert", "db4c970"), ["C02"], [], {"pinned": True}),
  ("revert-b0a1f02-operand-missing",      ("revert", "b0a1f02"), ["C04"], [], {"pinned": True}),
  # hand-written mutations (files under patches/)
 ]
